@@ -46,3 +46,104 @@ Theorem C02_search_spec : forall la e p s,
   search la e p s = true <-> if la then m e p s else m_somewhere e p s.
 Proof. exact search_spec. Qed.
 Print Assumptions C02_search_spec.
+
+(* ---- the plain tests of check_pattern_* are the token semantics of a literal pattern ---- *)
+Theorem C02_plain_tests_are_search : forall f s : str, all_lits f = true ->
+  containsb f s = search false false (toks f) s /\
+  suffixb f s = search false true (toks f) s /\
+  prefixb f s = search true false (toks f) s /\
+  str_eqb s f = search true true (toks f) s.
+Proof. exact plain_tests_are_search. Qed.
+Print Assumptions C02_plain_tests_are_search.
+
+(* ---- compile_regex: string translation = canonical printing of the token list ---- *)
+Theorem C02_translate_is_print : forall f la ra,
+  has_double_caret f = false -> no_nl f = true ->
+  translate f la ra = regex_text (toks f) la ra.
+Proof. exact translate_is_print. Qed.
+Print Assumptions C02_translate_is_print.
+
+(* ---- get_url_after_anchor ---- *)
+Theorem C02_url_after_anchor : forall url host hs ae,
+  find_sub host url = Some hs -> (0 < ae <= length host)%nat ->
+  get_url_after_anchor url host ae = drop (hs + ae) url.
+Proof. exact get_url_after_anchor_spec. Qed.
+Print Assumptions C02_url_after_anchor.
+
+(* ---- the mask bits that select the check_pattern_* function (generated from the source) ---- *)
+Theorem C02_mask_bits_independent : forall sh, shape_of_mask (mask_of_shape sh) = sh.
+Proof. exact mask_bits_independent. Qed.
+Print Assumptions C02_mask_bits_independent.
+
+(* ---- main theorem: check_pattern (dispatch + the nine functions) = ABP semantics of what the
+   parsed fields denote.  Carve-outs, all boolean: wf_fields (parser invariants), nondegenerate_fields
+   (field shapes only degenerate spellings produce), suffix_mid_label_case (finding
+   C02_suffix_mid_label); wf_request excludes requests whose hostname occurs in the URL before the
+   host (finding C02_host_in_url_prefix) and IPv6-literal hosts.  The regex crate enters through
+   the premise re_std for this rule's regex text. ---- *)
+Theorem C02_check_pattern_ref : forall re_ok re_match mask filter hostname r hs,
+  let sh := shape_of_mask mask in
+  wf_fields sh filter hostname = true ->
+  nondegenerate_fields sh filter hostname = true ->
+  wf_request r hs ->
+  suffix_mid_label_case sh filter hostname r = false ->
+  (forall f, filter = Some f -> s_rx sh = true ->
+             re_std re_ok re_match (translate f (s_la sh) (s_ra sh)) (s_la sh) (s_ra sh) (toks f)) ->
+  (check_pattern re_ok re_match mask (fs_of filter) hostname r = true <->
+   ref_match (ast_of_fields sh filter hostname) (lower_str (r_url r)) (r_host r) hs).
+Proof. exact check_pattern_ref_mask. Qed.
+Print Assumptions C02_check_pattern_ref.
+
+Theorem C02_ref_matchb_spec : forall a url host hs,
+  (forall h, pa_left a = LHost h -> h <> []) ->
+  (ref_matchb a url host hs = true <-> ref_match a url host hs).
+Proof. exact ref_matchb_spec. Qed.
+Print Assumptions C02_ref_matchb_spec.
+
+(* ---- from the text of a rule.  PARTIAL: the parse step (model parse_line of
+   NetworkFilter::parse) enters through the decidable premise [parse_ok line]; that every
+   non-degenerate line outside F22 satisfies it is proved only for the finite domain below and is
+   otherwise evaluated per generated rule by the correspondence run (text_tie). ---- *)
+Theorem C02_check_line_ref_partial : forall re_ok re_match line r hs,
+  let pf := parse_line line in
+  parse_ok line = true ->
+  wf_request r hs ->
+  suffix_mid_label_case (pf_shape pf) (pf_filter pf) (pf_hostname pf) r = false ->
+  (forall f, pf_filter pf = Some f -> s_rx (pf_shape pf) = true ->
+             re_std re_ok re_match (translate f (s_la (pf_shape pf)) (s_ra (pf_shape pf)))
+                    (s_la (pf_shape pf)) (s_ra (pf_shape pf)) (toks f)) ->
+  (check_pattern_sh re_ok re_match (pf_shape pf) (fs_of (pf_filter pf)) (pf_hostname pf) r = true <->
+   ref_match (ast_of_text line) (lower_str (r_url r)) (r_host r) hs).
+Proof. exact check_line_ref. Qed.
+Print Assumptions C02_check_line_ref_partial.
+
+Theorem C02_parse_preserves_ast_bounded : forall line,
+  (length line <= 6)%nat -> Forall (fun b => In b ALPHA) line ->
+  nondegenerate_text line = true -> host_right_pipe line = false -> parse_ok line = true.
+Proof. exact parse_preserves_ast_bounded. Qed.
+Print Assumptions C02_parse_preserves_ast_bounded.
+
+(* ---- refutations (each witness replayed on the crate is a listed finding) ---- *)
+Theorem C02_host_right_pipe_refuted :
+  exists line url host hs,
+    host_right_pipe line = true /\ nondegenerate_text line = true /\
+    wf_request {| r_url := url; r_host := host |} hs /\
+    cp_line line url host = true /\ ~ ref_match (ast_of_text line) url host hs.
+Proof. exact host_right_pipe_refuted. Qed.
+Print Assumptions C02_host_right_pipe_refuted.
+
+Theorem C02_suffix_mid_label_refuted :
+  exists line url host hs,
+    nondegenerate_text line = true /\ host_right_pipe line = false /\ parse_ok line = true /\
+    wf_request {| r_url := url; r_host := host |} hs /\
+    cp_line line url host = true /\ ~ ref_match (ast_of_text line) url host hs.
+Proof. exact suffix_mid_label_refuted. Qed.
+Print Assumptions C02_suffix_mid_label_refuted.
+
+Theorem C02_host_in_url_prefix_refuted :
+  exists line url host hs,
+    nondegenerate_text line = true /\ host_right_pipe line = false /\
+    find_sub host url <> Some hs /\
+    cp_line line url host = false /\ ref_match (ast_of_text line) url host hs.
+Proof. exact host_in_url_prefix_refuted. Qed.
+Print Assumptions C02_host_in_url_prefix_refuted.
